@@ -173,12 +173,18 @@ func (fc *funcContext) translateMethod(fun *ast.FuncDecl) []byte {
 	// complete implementation for only one receiver (non-pointer for most types)
 	// and define a proxy function on the other, which converts the receiver type
 	// and forwards the call to the primary implementation.
-	proxyFunction := func(lvalue, receiver string) []byte {
+	proxyFunction := func(lvalue, receiver string, late bool) []byte {
 		fun := fmt.Sprintf("function(...$args) { return %s.%s(...$args); }", receiver, funName)
 		// $fwd tells the run time which receiver the proxy forwards to, so that a method
 		// value (and with it a deferred or go call) can bind the implementation itself.
+		// A receiver that is loaded through a pointer must be loaded when the method is
+		// called ($late), not when it is bound.
 		fwd := fmt.Sprintf("function() { return %s; }", receiver)
-		return []byte(fmt.Sprintf("\t\t%s = %s;\n\t\t%s.$fwd = %s;\n", lvalue, fun, lvalue, fwd))
+		code := fmt.Sprintf("\t\t%s = %s;\n\t\t%s.$fwd = %s;\n", lvalue, fun, lvalue, fwd)
+		if late {
+			code += fmt.Sprintf("\t\t%s.$late = true;\n", lvalue)
+		}
+		return []byte(code)
 	}
 
 	// Structs are a special case: they are represented by JS objects and their
@@ -188,7 +194,7 @@ func (fc *funcContext) translateMethod(fun *ast.FuncDecl) []byte {
 	if _, isStruct := recvType.Underlying().(*types.Struct); isStruct {
 		code := bytes.Buffer{}
 		code.Write(primaryFunction(ptrPrototypeVar))
-		code.Write(proxyFunction(prototypeVar, "this.$val"))
+		code.Write(proxyFunction(prototypeVar, "this.$val", false))
 		return code.Bytes()
 	}
 
@@ -200,7 +206,7 @@ func (fc *funcContext) translateMethod(fun *ast.FuncDecl) []byte {
 	}
 	code := bytes.Buffer{}
 	code.Write(primaryFunction(prototypeVar))
-	code.Write(proxyFunction(ptrPrototypeVar, proxyRecvExpr))
+	code.Write(proxyFunction(ptrPrototypeVar, proxyRecvExpr, true))
 	return code.Bytes()
 }
 
